@@ -42,7 +42,7 @@ import (
 
 type AdapterCase struct {
 	Trait     string `json:"trait"`
-	Level     string `json:"level"`     // model | server
+	Level     string `json:"level"`     // model | server | group (the pkg/group based fan-in handler of a trait Group over 3 member devices)
 	Consume   string `json:"consume"`   // drain | stop (receive StopAfter events, then never again)
 	StopAfter int    `json:"stopAfter"` // also: the fake stream's Send fails from this message on (level server)
 	Writes    int    `json:"writes"`    // writes issued after the consumer stopped / while it drains
@@ -397,6 +397,58 @@ func openServer(name string, ctx context.Context, failFrom int, uo bool) (run fu
 	return nil, nil
 }
 
+// the traits that have a Group (pkg/group based fan-in of the members' Pull streams into one)
+var groupNames = []string{"light", "onoff"}
+
+// openGroup: a trait Group over three member devices (model + ModelServer each, reached like in production through
+// the trait's router and the in-process wrapper); run is the Group's Pull handler on a fake stream, the i-th write
+// changes one member
+func openGroup(name string, ctx context.Context, failFrom int, uo bool) (run func(), write func(i int)) {
+	members := []string{"A", "B", "C"}
+	switch name {
+	case "light":
+		models := map[string]*lightpb.Model{}
+		for _, n := range members {
+			models[n] = lightpb.NewModel()
+		}
+		devices := lightpb.NewApiRouter(lightpb.WithLightApiClientFactory(func(n string) (traits.LightApiClient, error) {
+			m := models[n]
+			if m == nil {
+				return nil, errors.New("unknown device")
+			}
+			return lightpb.WrapApi(lightpb.NewModelServer(m)), nil
+		}))
+		g := lightpb.NewGroup(lightpb.WrapApi(devices), members...)
+		return func() {
+				g.PullBrightness(&traits.PullBrightnessRequest{Name: "group", UpdatesOnly: uo}, newFake[traits.PullBrightnessResponse](ctx, failFrom))
+			}, func(i int) {
+				models[members[i%3]].UpdateBrightness(&traits.Brightness{LevelPercent: float32(1 + (7*i)%90)})
+			}
+	case "onoff":
+		models := map[string]*onoffpb.Model{}
+		for _, n := range members {
+			models[n] = onoffpb.NewModel()
+		}
+		devices := onoffpb.NewApiRouter(onoffpb.WithOnOffApiClientFactory(func(n string) (traits.OnOffApiClient, error) {
+			m := models[n]
+			if m == nil {
+				return nil, errors.New("unknown device")
+			}
+			return onoffpb.WrapApi(onoffpb.NewModelServer(m)), nil
+		}))
+		g := onoffpb.NewGroup(onoffpb.WrapApi(devices), members...)
+		return func() {
+				g.PullOnOff(&traits.PullOnOffRequest{Name: "group", UpdatesOnly: uo}, newFake[traits.PullOnOffResponse](ctx, failFrom))
+			}, func(i int) {
+				// all three members change together every third write: the group's (max) state flips ON / OFF
+				for _, n := range members {
+					models[n].UpdateOnOff(&traits.OnOff{State: traits.OnOff_State(1 + i%2)})
+				}
+			}
+	}
+	return nil, nil
+}
+
 func adapterScenarios(boundMs int) []Scenario {
 	var res []Scenario
 	add := func(ac AdapterCase) {
@@ -416,6 +468,16 @@ func adapterScenarios(boundMs int) []Scenario {
 		}
 		add(AdapterCase{Trait: name, Level: "server", Consume: "drain", StopAfter: 1 << 20, Writes: 2 + i%3})
 		add(AdapterCase{Trait: name, Level: "server", Consume: "drain", StopAfter: 1 << 20, Writes: 1, Pre: true})
+	}
+	for i, name := range groupNames {
+		for _, k := range []int{0, 1, 2} {
+			// the hand-over to the client fails at message k+1: the group subscription ends on its error path, the
+			// stream's context still live
+			add(AdapterCase{Trait: name, Level: "group", Consume: "stop", StopAfter: k, Writes: 4, UO: (i+k)%2 == 1})
+		}
+		add(AdapterCase{Trait: name, Level: "group", Consume: "drain", StopAfter: 1 << 20, Writes: 4})
+		add(AdapterCase{Trait: name, Level: "group", Consume: "drain", StopAfter: 1 << 20, Writes: 3, UO: true})
+		add(AdapterCase{Trait: name, Level: "group", Consume: "drain", StopAfter: 1 << 20, Writes: 1, Pre: true})
 	}
 	return res
 }
@@ -466,9 +528,13 @@ func runAdapter(sc Scenario) (out Outcome) {
 			}
 			close(closed)
 		}()
-	case "server":
+	case "server", "group":
 		var run func()
-		run, write = openServer(ac.Trait, ctx, ac.StopAfter, ac.UO)
+		if ac.Level == "group" {
+			run, write = openGroup(ac.Trait, ctx, ac.StopAfter, ac.UO)
+		} else {
+			run, write = openServer(ac.Trait, ctx, ac.StopAfter, ac.UO)
+		}
 		if run == nil {
 			o.count("unknown-server:" + ac.Trait)
 			return
@@ -502,6 +568,27 @@ func runAdapter(sc Scenario) (out Outcome) {
 	case <-time.After(bound):
 	}
 	time.Sleep(2 * time.Millisecond) // let the adapter goroutine pick up the last change
+	if ac.Level == "group" && ac.Consume == "stop" && !ac.Pre {
+		// a Group's Pull handler that returned because its hand-over failed has ended its subscription itself (it runs
+		// the members on a context of its own, cancelled on return): the fan-in goroutine, the member streams and the
+		// members' subscriptions all go although the stream's context is still live
+		select {
+		case <-closed:
+			o.eval(monShutdown, "goroutines-baseline/trait/"+key+"/send-failed-ctx-live", true)
+			if ok, left, _ := waitBaseline(bound); !ok {
+				o.violate(monShutdown, "C10/trait/"+ac.Trait+"/group/goroutine-leak-after-send-failed",
+					"goroutines started for a group subscription are still alive after its handler returned the error of a failed Send (stream context still live)",
+					"no goroutine inside pkg/trait/*, pkg/group, pkg/wrap, pkg/resource or internal/minibus", censusSummary(left))
+				cancel()
+				return
+			}
+		case <-time.After(bound):
+			o.violate(monShutdown, "C10/trait/"+ac.Trait+"/group/handler-not-returned-after-send-failed",
+				"a Group's Pull handler whose Send failed did not return", "returns within "+bound.String(), "still running; goroutines: "+censusSummary(census()))
+			cancel()
+			return
+		}
+	}
 	cancel()
 	if ac.Consume == "drain" {
 		o.eval(monShutdown, "closed-after-cancel/trait/"+key, true)
